@@ -138,3 +138,11 @@ impl<'a, M: Flat + ?Sized, B: AsyncWriteBuffer + 'a> DerefMut for SendGuard<'a, 
         unsafe { M::from_mut_bytes_unchecked(self.buffer) }
     }
 }
+
+/// Read-only verification hook (feature `verif`, off by default).
+#[cfg(feature = "verif")]
+impl<M: Flat + ?Sized, B: AsyncWriteBuffer> Sender<M, B> {
+    pub fn verif_buffer(&self) -> &B {
+        &self.buffer
+    }
+}
